@@ -81,6 +81,8 @@ def replay_case(case):
         try:
             if ev["op"] == "modadd":
                 rl = "not-a-list" if ev["rl"] == ["notalist"] else shared.setdefault(tuple(ev["rl"]), [RPMTOK[r] for r in ev["rl"]])
+                if isinstance(rl, list) and (rot + step) % 3 == 1:
+                    rl = tuple(rl)              # the other sequence type the builder takes
                 mm.add("" if ev["v"] == "empty" else ev["v"], arch[ev["a"]], uid_arg(ev["m"], ev["uform"], mods),
                        "module-tag-1" if ev["koji"] == "tag" else "", PATHS[ev["path"]],
                        "package" if ev["cat"] == "invalid" else ev["cat"], rl)
